@@ -47,6 +47,8 @@ const SLOT: usize = 512;
 thread_local! {
     static CRASH_SLOT: Cell<[u8; SLOT]> = const { Cell::new([0; SLOT]) };
     static CRASH_LEN: Cell<usize> = const { Cell::new(0) };
+    static PANIC_SLOT: Cell<[u8; SLOT]> = const { Cell::new([0; SLOT]) };
+    static PANIC_LEN: Cell<usize> = const { Cell::new(0) };
 }
 
 pub fn set_crash_descriptor(desc: &str) {
@@ -68,6 +70,11 @@ extern "C" fn on_fatal(sig: libc::c_int) {
         libc::write(1, pre.as_ptr() as *const _, pre.len());
         let buf = CRASH_SLOT.with(|c| c.get());
         let n = CRASH_LEN.with(|c| c.get());
+        libc::write(1, buf.as_ptr() as *const _, n);
+        let pre = b" last_panic=";
+        libc::write(1, pre.as_ptr() as *const _, pre.len());
+        let buf = PANIC_SLOT.with(|c| c.get());
+        let n = PANIC_LEN.with(|c| c.get());
         libc::write(1, buf.as_ptr() as *const _, n);
         libc::write(1, b"\n".as_ptr() as *const _, 1);
         libc::_exit(70);
@@ -105,6 +112,14 @@ pub fn install_quiet_panic_hook() {
                 "<non-string panic>".to_string()
             };
             let loc = info.location().map(|l| format!("{}:{}", l.file(), l.line())).unwrap_or_default();
+            {
+                let text = format!("{msg} @ {loc}");
+                let mut buf = [0u8; SLOT];
+                let n = text.len().min(SLOT);
+                buf[..n].copy_from_slice(&text.as_bytes()[..n]);
+                PANIC_SLOT.with(|c| c.set(buf));
+                PANIC_LEN.with(|c| c.set(n));
+            }
             LAST_PANIC.with(|p| {
                 if let Ok(mut g) = p.try_borrow_mut() {
                     *g = format!("{msg} @ {loc}");
